@@ -196,7 +196,12 @@ def splice(unit, low, harnesses, out_c, mode='proof'):
             else:
                 k = int(parts[1])
                 lp = spec.get('loops', {}).get(k)
-                if lp is None or mode == 'bounded' or fn in breaks:
+                if lp is None or fn in breaks:
+                    continue
+                # bounded mode: the loop contract is left out; in-loop ghost code is left out too unless the
+                # sidecar marks it `ghost_in_bounded` (operational ghost state that the ensures clauses read,
+                # as opposed to ghost code that only feeds invariants)
+                if mode == 'bounded' and (kind == 'LOOP' or not lp.get('ghost_in_bounded')):
                     continue
                 if kind == 'BEFORELOOP' and lp.get('before'):
                     lines.append(ind + 'GHOST(%s)' % subst(lp['before']))
